@@ -38,6 +38,7 @@ def make_world(seed, collide):
         for ci, chrom in enumerate(w.chrom_order[1:]):
             world2.clone_gene(w, x, "X%d" % (ci + 2), chrom, x.start)
     world.add_standard_reads(w, per_transcript=6, jitter=2, hidden_cov=7, polya_frac=0.7)
+    world2.add_zoo(w, tuple(z for z in world2.ZOO_ALL if z != "same_coords"))
     if seed % 2 == 1:
         # sequence names with dots (RefSeq / scaffold style): ids of the form transcript<N>.<chr>.<suffix> contain more dots then
         world2.rename_chroms(w, {c: ("NC_00007%d.6", "GL45621%d.1", "KI27072%d.1")[i % 3] % i for i, c in enumerate(w.chrom_order)})
